@@ -3,6 +3,10 @@
 #![allow(clippy::all)]
 
 pub mod common;
+pub mod entries;
+pub mod silent;
 
 #[cfg(feature = "c17")]
 pub mod c17;
+#[cfg(feature = "c12")]
+pub mod c12;
